@@ -86,8 +86,13 @@ def direct_oracle(inp, obs):
     if inp.get("api") == "rows" and inp["mode"] == "yield":
         # a rejection is reported iff the offending row's number is at most the limit; later rows come back unchanged
         data_rows = table[header:]
-        if len(obs["outs"]) != len(data_rows) and obs["raised"] is None and spec["format"] == "delimited" and all(r for r in table):
+        if len(obs["outs"]) != len(data_rows) and obs["raised"] is None and spec["format"] == "delimited" and not inp.get("fault"):
+            # (a blank line is a row - one without items - and counts like any other, in the header and behind it)
             return "number of outputs %d differs from number of data rows %d" % (len(obs["outs"]), len(data_rows))
+        if spec["format"] == "delimited" and not inp.get("fault"):
+            for i, o in enumerate(obs["outs"]):
+                if "row" in o and i < len(data_rows) and [c for c in o["row"]] != list(data_rows[i]):
+                    return "output %d is %r but data row %d is %r" % (i + 1, o["row"], i + 1, data_rows[i])
         for o in obs["outs"]:
             if "err" in o and limit is not None and o["err"]["line"] + 1 > limit:
                 return "rejection reported for row %d beyond the validation limit %d" % (o["err"]["line"] + 1, limit)
